@@ -5,8 +5,8 @@ V = '/verif'
 CLAIMED = {
  'C01': dict(
    level='other', design='DESIGN.md §5 C01',
-   technique='static analysis: must-pass-through of the holding/delta addition before every credit save (walked over the call chain), append-count linear forms of the emitter vs destination guards, term identity of debited/shipped/credited quantity, load-modify-save pairing, credit-or-shipment cut after the debit with cross-function path correlation',
-   text='Six structural necessary conditions of conservation are decided for all paths: credits add the existing holding (or the delta) before saving; the destination side accepts exactly the argument count the sender emits and the announced count is the number of entries; the quantity debited, set on the shipped entry and credited is one term; loaded accounts that are modified are saved; after the debit every successful path credits locally or ships. The read-key = write-key clause (R2) is a KNOWN FINDING on this tree (token-id||nonce aliasing, only partly repairable). The sums over histories are not decided.',
+   technique='static analysis: must-pass-through of the holding/delta addition before every credit save (walked over the call chain), append-count linear forms of the emitter vs destination guards, exact-guard dominance of every debit below the transfers, pairwise exclusion (guard contradiction or CFG separation) of local credits and token-carrying messages, term identity of debited/shipped/credited quantity, load-modify-save pairing, credit-or-shipment cut after the debit with cross-function path correlation',
+   text='Eight structural necessary conditions of conservation are decided for all paths: debits are exact (guarded Sub; an overdrawn NFT entry would be deleted and the excess created); a local credit and a message carrying the tokens on under the function\'s own name exclude each other (tokens are delivered once); credits add the existing holding (or the delta) before saving; the destination side accepts exactly the argument count the sender emits and the announced count is the number of entries; the quantity debited, set on the shipped entry and credited is one term; loaded accounts that are modified are saved; after the debit every successful path credits locally or ships. The read-key = write-key clause (R2) is a KNOWN FINDING on this tree (token-id||nonce aliasing, only partly repairable). The sums over histories are not decided.',
    note='Trusted: go/types + go/ssa; math/big semantics; A-deps; A-protomsg. One known finding listed in known_findings.json.'),
  'C02': dict(
    level='other', design='DESIGN.md §5 C02',
@@ -30,12 +30,12 @@ CLAIMED = {
    note='Trusted: go/types + go/ssa; C02-R1, C08-R1; A-deps. One known finding listed in known_findings.json.'),
  'C03': dict(
    level='other', design='DESIGN.md §5 C03',
-   technique='static analysis: interprocedural effect enumeration + CFG cut by authority-guard edges (go/ssa), argument binding by canonical terms, table agreement with T-REG',
+   technique='static analysis: interprocedural effect enumeration + CFG cut by authority-guard edges (go/ssa), argument binding by canonical terms, table agreement with T-REG; cut of the user-key writer by the protected-prefix test on the written key; loop-shape rule for list removal',
    text='Every world-state effect (dependency mutator call or OutputTransfer literal, in every calling context) below each privileged entry point — resolved through the factory registrations — is shown to be cut on all CFG paths by the success edge of that function\'s authority guard with the right bindings (role constant of the table, sender account, Arguments[0]; caller == ESDTSCAddress; absent sender; caller == owner; caller in DNS set); the in-module role handler succeeds only under a matching list element. Structural necessary condition of the property for all inputs and role subsets; histories of role changes are not decided.',
    note='Trusted: go/types + go/ssa; T-REG (spec/registry.json) restating the role/authority of each protocol name; A-presence.'),
  'C04': dict(
    level='other', design='DESIGN.md §5 C04',
-   technique='static analysis: key/account provenance dataflow + CFG cut by the freeze/pause gate with argument binding; success-return classification of the gate; sibling agreement of pause lookup/store',
+   technique='static analysis: key/account provenance dataflow + CFG cut by the freeze/pause gate with argument binding; success-return classification of the gate; sibling agreement of pause lookup/store; load-modify-save of the pause account; who-may-write table for the frozen flag',
    text='Every balance-class storage write below every non-exempt registered entry point is cut, in every calling context, by the success edge of the freeze/pause gate bound to the written account\'s address, the token-level key, the own pause handler, the entry held by that account and the ReturnCallAfterError flag; the gate succeeds only under the three stated conditions; pause lookup and toggle agree on account and key; one pause object serves all functions; freeze toggling never mutates Value.',
    note='Trusted: go/types + go/ssa; T-EXEMPT (the five exempt protocol names of the statement); A-presence; flag byte tables are C20.'),
  'C05': dict(
